@@ -530,6 +530,7 @@ func runC03(c *hx.Ctx) {
 	x.interruptedCases()
 	x.limitParkedCases()
 	x.closeBehindSend()
+	x.gatedIntact()
 	x.loopbackQuick()
 	if c.Thorough() {
 		x.loopbackCases()
